@@ -4,7 +4,7 @@ C01 part B2 — part 9: the call that `combine_legs` passes to `combineStd` is i
 pipes made by `_combine_legs_make_pipes` fit (`PipesOK`); the public `combine_legs` when no transposition is
 needed (`combineLegs_places_id`).
 -/
-namespace TenpyModel.C01B2
+namespace TenpyModel.C01B2.Comb
 open TenpyModel.Core TenpyModel.C01B
 
 variable {α : Type}
@@ -166,4 +166,4 @@ theorem combineLegs_places_id (a r : Arr α) (ha : a.WF) (cl : List (List Ax)) (
   · exact absurd rfl hne
 
 end zero
-end TenpyModel.C01B2
+end TenpyModel.C01B2.Comb
